@@ -2,6 +2,7 @@ package monitors
 
 import (
 	"bufio"
+	"context"
 	"encoding/json"
 	"fmt"
 	"io"
@@ -111,6 +112,18 @@ func (c *c19kRec) Adjust(offset, duration time.Duration, frequency float64) {
 	c.report(c19kCall{Kind: "Adjust", X: int64(offset), D: int64(duration), F: frequency})
 }
 
+type c19kSlowLog struct{}
+
+func (c19kSlowLog) Enabled(context.Context, slog.Level) bool { return true }
+func (c19kSlowLog) WithAttrs([]slog.Attr) slog.Handler       { return c19kSlowLog{} }
+func (c19kSlowLog) WithGroup(string) slog.Handler            { return c19kSlowLog{} }
+func (c19kSlowLog) Handle(_ context.Context, rec slog.Record) error {
+	if rec.Message == "setting frequency" {
+		time.Sleep(300 * time.Microsecond)
+	}
+	return nil
+}
+
 func c19kChild(args []string) {
 	if len(args) != 1 {
 		os.Exit(3)
@@ -129,7 +142,10 @@ func c19kChild(args []string) {
 	}
 	fmt.Println("INJECTED")
 	out := bufio.NewWriter(os.Stdout)
-	rec := &c19kRec{clk: clocks.NewSystemClock(slog.New(slog.DiscardHandler), 0), out: out}
+	// the driver logs every kernel write at debug level just before it makes it: a handler that takes
+	// its time there is an injected delay at an existing hook point (harmless where the write happens under
+	// the driver's lock, a widened window where it does not)
+	rec := &c19kRec{clk: clocks.NewSystemClock(slog.New(c19kSlowLog{}), 0), out: out}
 	var pll *adjustments.Pll
 	if scn.Mode == "pll" {
 		pll = adjustments.NewPLL(slog.New(slog.DiscardHandler), rec)
@@ -141,13 +157,19 @@ func c19kChild(args []string) {
 			}
 		}()
 		for i, op := range scn.Ops {
+			t0 := time.Now()
 			time.Sleep(time.Duration(op.BeforeMs) * time.Millisecond)
+			if late := time.Since(t0) - time.Duration(op.BeforeMs)*time.Millisecond; late > 100*time.Millisecond {
+				fmt.Fprintf(out, "LATE %d\n", late.Milliseconds())
+			}
 			rec.upd = i
 			switch op.Kind {
 			case "Step":
 				rec.Step(time.Duration(op.X))
 			case "Adjust":
 				rec.Adjust(time.Duration(op.X), time.Duration(op.D), op.F)
+			case "Sleep": // the service's loop sleeps on the same clock between updates
+				rec.clk.Sleep(time.Duration(op.D))
 			case "Update":
 				pll.Do(time.Duration(op.X), op.W)
 			}
@@ -217,7 +239,7 @@ type c19kVerdict struct {
 
 // c19kJudge replays the reported calls against the kernel calls seen.  final: the child was idle
 // long enough for every owed restore.
-func c19kJudge(calls []c19kCall, sys []c19kSys, final bool) c19kVerdict {
+func c19kJudge(calls []c19kCall, sys []c19kSys, final bool, maxLate float64) c19kVerdict {
 	const eps = 0.002 // strace stamps a call when it is entered; 2 ms for the float arithmetic on epoch seconds
 	type fail struct {
 		ci, si int
@@ -257,7 +279,9 @@ func c19kJudge(calls []c19kCall, sys []c19kSys, final bool) c19kVerdict {
 		if pend != nil && si < len(sys) && c19kIsFreq(sys[si], pend.after) {
 			elapsed := sys[si].TS - pend.setTS
 			if elapsed >= pend.dur-eps {
-				if rec(ci, si+1, nil, sys[si].Freq, append(cls, "restore:after-the-duration")) {
+				if maxLate >= 0 && elapsed > pend.dur+maxLate {
+					note(ci, si, "frequency of an adjustment restored long after its duration had passed", map[string]any{"adjust_call": pend.call, "elapsed_s": elapsed, "duration_s": pend.dur})
+				} else if rec(ci, si+1, nil, sys[si].Freq, append(cls, "restore:after-the-duration")) {
 					return true
 				}
 			}
@@ -380,6 +404,25 @@ func c19kGen(rng *rand.Rand, k int) c19kScn {
 			}
 		}
 		s.Ops = append(s.Ops, op)
+		if op.Kind == "Adjust" && rng.IntN(3) == 0 {
+			// the next update arrives at the very moment the adjustment ends (the time between updates is a
+			// whole number of seconds)
+			nx := c19kOp{Kind: "Adjust", BeforeMs: int(op.D / int64(time.Millisecond)), D: int64(1+rng.IntN(2)) * int64(time.Second)}
+			for {
+				nx.F = c17Sign64(rng) * float64(1+rng.IntN(400)) * 1e-7
+				nx.X = c17Sign(rng) * c17LogU(rng, 1000, 400000) * (nx.D / int64(time.Second))
+				a, b := int64(nx.F*65536e6), int64((nx.F+float64(nx.X)/float64(nx.D))*65536e6)
+				if !used[a/4] && !used[b/4] && a/4 != b/4 {
+					used[a/4], used[b/4] = true, true
+					break
+				}
+			}
+			s.Ops = append(s.Ops, nx)
+			op = nx
+		} else if op.Kind == "Adjust" && rng.IntN(4) == 0 {
+			// the loop that drives the discipline sleeps on the same clock while the slew is under way
+			s.Ops = append(s.Ops, c19kOp{Kind: "Sleep", BeforeMs: 100, D: op.D + int64(time.Second) + int64(rng.IntN(800))*int64(time.Millisecond)})
+		}
 		if op.Kind == "Adjust" && rng.IntN(4) == 0 {
 			// nothing left to slew, same base frequency, while the slew just asked for is still under way
 			s.Ops = append(s.Ops, c19kOp{Kind: "Adjust", BeforeMs: []int{0, 200, 600}[rng.IntN(3)], X: 0, D: int64(1+rng.IntN(2)) * int64(time.Second), F: op.F})
@@ -401,6 +444,7 @@ type c19kRun struct {
 	calls  []c19kCall
 	sys    []c19kSys
 	status string // "" | "noinject" | "timeout" | "panic: ..." | "error: ..."
+	late   bool   // the child's own sleeps overran by more than 100 ms somewhere: the machine is busy
 	log    string
 }
 
@@ -471,6 +515,8 @@ func c19kRunChild(dir string, k int, scn c19kScn) (out c19kRun) {
 				if json.Unmarshal([]byte(ln[5:]), &c) == nil {
 					out.calls = append(out.calls, c)
 				}
+			case strings.HasPrefix(ln, "LATE "):
+				out.late = true
 			case strings.HasPrefix(ln, "PANIC "):
 				out.status = "panic: " + ln[6:]
 			case ln == "IDLE":
@@ -489,7 +535,7 @@ func c19kRunChild(dir string, k int, scn c19kScn) (out c19kRun) {
 		if err != nil {
 			continue
 		}
-		v := c19kJudge(out.calls, c19kParse(string(lb)), true)
+		v := c19kJudge(out.calls, c19kParse(string(lb)), true, -1)
 		if v.ok || !v.pending {
 			break
 		}
@@ -547,7 +593,13 @@ func c19Kernel(r *ev.Run) {
 		}
 		r.Eval(int64(len(rr.calls)))
 		nsys += len(rr.sys)
-		v := c19kJudge(rr.calls, rr.sys, true)
+		// a restore more than 1.5 s overdue is judged only if the child's own sleeps were on time
+		maxLate := 1.5
+		if rr.late {
+			maxLate = -1
+			r.Class("kernel:machine busy (lateness of restores not judged)")
+		}
+		v := c19kJudge(rr.calls, rr.sys, true, maxLate)
 		if !v.ok {
 			for key, val := range v.detail {
 				w[key] = val
